@@ -20,5 +20,27 @@ Theorem C17_statements_depth_chain_refuted : forall n, 2 <= n ->
 Proof. exact statements_depth_chain. Qed.
 Print Assumptions C17_statements_depth_chain_refuted.
 
+(* the same family measured by the FULL height of the tree (every child of every node counts, comprehension bodies and
+   generators included) *)
+Theorem C17_statements_height_list : forall n, exists e, lower_module cfg_list top_symtab (marks n) = inl e /\ height e <= 3.
+Proof. exact statements_height_list. Qed.
+Print Assumptions C17_statements_height_list.
+
+(* an early exit (`if c(1): break` in a while loop) followed by n statements of the same block: the rest of the block sits
+   under ONE test of the exit's flag - height 7 for EVERY n, not one nesting level per statement *)
+Theorem C17_guarded_statements_height_list : forall n,
+  exists e, lower_module cfg_list top_symtab (guard_prog n) = inl e /\ height e <= 7.
+Proof. exact guarded_statements_height_list. Qed.
+Print Assumptions C17_guarded_statements_height_list.
+
+(* the same after `if c(1): continue` in a for loop *)
+Theorem C17_continued_statements_height_list : forall n,
+  exists e, lower_module cfg_list top_symtab (cont_prog n) = inl e /\ height e <= 6.
+Proof. exact continued_statements_height_list. Qed.
+Print Assumptions C17_continued_statements_height_list.
+
+Example C17_guard_nonvacuous : exists e, lower_module cfg_list top_symtab (guard_prog 40) = inl e /\ height e = 7.
+Proof. eexists. split; [vm_compute; reflexivity|vm_compute; reflexivity]. Qed.
+
 Example C17_nonvacuous : exists e, lower_module cfg_list top_symtab (marks 5) = inl e /\ depth e = 3.
 Proof. eexists. split; [vm_compute; reflexivity|reflexivity]. Qed.
